@@ -9,7 +9,9 @@ mod c04;
 mod c05;
 mod c10;
 mod c11;
+mod attgen;
 mod c14;
+mod c17;
 mod olpc;
 mod c20;
 mod e2e;
@@ -79,6 +81,7 @@ fn main() {
         "C13" => e2e_props::run(&cfg, "C13"),
         "C15" => e2e_props::run(&cfg, "C15"),
         "C14" => c14::run(&cfg),
+        "C17" => c17::run(&cfg),
         "C20" => c20::run(&cfg),
         p => {
             eprintln!("no generator for {}", p);
